@@ -254,7 +254,10 @@ func reg(kind string, t proto2.Command_Type, weight int, f genFn) {
 		c.Kind = kind
 		c.Type = t
 		if c.Desc == "" {
-			c.Desc = kind + " " + c.Text
+			c.Desc = c.Text
+		}
+		if u.Modelled && c.Text != "" {
+			return FromText(c.Text) // the text is the single source in the modelled mode
 		}
 		return c
 	}}
@@ -299,6 +302,9 @@ func init() {
 		rep := uint32(1)
 		if u.R.Chance(10) {
 			rep = uint32(u.R.Intn(3))
+			if u.Modelled && rep > 1 {
+				rep = 0 // replica groups are outside the catalogue model
+			}
 		}
 		v.ReplicaNum = pu32(rep)
 		txt += fmt.Sprintf(" %d", rep)
@@ -782,4 +788,20 @@ func Bootstrap(u *Universe) []Cmd {
 		out = append(out, u.GenKind("CreateShardGroup"))
 	}
 	return out
+}
+
+// UngeneratedTypes lists command types registered in the state machine's dispatch table for
+// which this generator has no kind.
+func UngeneratedTypes() []int32 {
+	have := map[int32]bool{}
+	for _, g := range gens {
+		have[int32(g.t)] = true
+	}
+	var missing []int32
+	for _, t := range registeredTypes() {
+		if !have[t] {
+			missing = append(missing, t)
+		}
+	}
+	return missing
 }
